@@ -24,12 +24,18 @@ type CaseC13Scte struct {
 	// Sap: the two bits behind private_indicator of a decoded input (reserved '11' in older editions of SCTE 35, sap_type in
 	// newer ones: every value is legal), with the input's CRC_32 computed over them. Stored as value+1; 0 = leave as encoded.
 	Sap int `json:"sap_type_plus_1,omitempty"`
+	// Fill: k > 0 chooses the alignment stuffing so that section_length comes out as 4093-(k-1), the largest values the
+	// 12-bit field may announce (SCTE 35 limits the section to 4093 bytes behind the length field)
+	Fill int `json:"fill_to_limit,omitempty"`
 }
 
 func genC13Scte(t *rapid.T) CaseC13Scte {
 	c := CaseC13Scte{C: genC09(t), Stuffing: rapid.SampledFrom([]int{0, 0, 1, 2, 3, 7}).Draw(t, "stuffing")}
 	if rapid.Bool().Draw(t, "sap-type") {
 		c.Sap = 1 + rapid.IntRange(0, 3).Draw(t, "sap-type-value")
+	}
+	if rapid.IntRange(0, 5).Draw(t, "fill-to-limit") == 0 {
+		c.Fill = rapid.IntRange(1, 5).Draw(t, "fill-k")
 	}
 	return c
 }
@@ -66,11 +72,30 @@ func checkC13Scte(c CaseC13Scte, x *hx.Ctx) *hx.Failure {
 	for _, mu := range c.C.Muts {
 		c09Apply(st, mu)
 	}
+	if c.Fill > 0 {
+		st.sig.SetAlignmentStuffing(0)
+		if room := 4096 - (c.Fill - 1) - len(st.sig.UpdateData()); room > 0 {
+			c.Stuffing = room
+			x.Label("section-filled-to-the-length-limit")
+		}
+	}
 	st.sig.SetAlignmentStuffing(uint(c.Stuffing))
 	x.NonTrivial()
 	x.Label("emitted=splice_info_section")
 	x.LabelIf(c.Stuffing > 0, "alignment-stuffing>0")
 	sec := st.sig.UpdateData()
+	if len(sec) < 3 {
+		return hx.Failf("emitted-scte-length", "encoded splice_info_section has %d bytes", len(sec))
+	}
+	if len(sec) > 4096 {
+		return nil // the setter history made the section longer than section_length can announce: outside the domain
+	}
+	// a receiver delimits the section by section_length and applies the CRC condition to exactly those bytes
+	if sl := int(sec[1]&0x0F)<<8 | int(sec[2]); 3+sl > len(sec) {
+		return hx.Failf("emitted-scte-length", "encoded splice_info_section announces %d bytes behind section_length, only %d present (alignment stuffing %d)", sl, len(sec)-3, c.Stuffing)
+	} else if r := ref.CRC32MPEG2(sec[:3+sl]); r != 0 {
+		return hx.Failf("emitted-scte-crc-as-delimited", "the %d bytes that section_length (%d) delimits have CRC-32/MPEG-2 residue %08x, want 0 (%d bytes emitted, alignment stuffing %d)", 3+sl, sl, r, len(sec), c.Stuffing)
+	}
 	if r := ref.CRC32MPEG2(sec); r != 0 {
 		return hx.Failf("emitted-scte-crc", "encoded splice_info_section (%d bytes, alignment stuffing %d) has CRC-32/MPEG-2 residue %08x, want 0\n section %x", len(sec), c.Stuffing, r, sec)
 	}
